@@ -272,8 +272,14 @@ def fuzz_run(ctx, check, max_runs, frac=None):
     '''Run the check module's coverage-guided sub-check `check` (pbt/fuzz.py: Atheris/libFuzzer in a
     child process) and fold what it covered into ctx.  The child stops at max_runs executions or at
     the given fraction of the shard's remaining budget, whichever comes first.'''
+    import importlib.util
     import subprocess
     import sys
+    if importlib.util.find_spec('atheris') is None:
+        # the engine is not installed (MANIFEST setup_cmd installs it): this sub-check explored
+        # nothing - inconclusive, neither a pass nor a verdict; the Hypothesis sub-checks stand
+        ctx.inconclusive['atheris_not_installed:' + check] += 1
+        return
     left = None
     if ctx.budget_s is not None:
         left = max(0.0, ctx.budget_s - (time.time() - ctx.start))
